@@ -11,6 +11,7 @@ def main():
     sys.stdout.flush()
     for line in sys.stdin:
         t = json.loads(line)
+        crcs = []
         try:
             if t["op"] == "decode":
                 recs = MemoryRecords(bytes.fromhex(t["data"]))
@@ -22,6 +23,7 @@ def main():
                         raise RuntimeError("runaway: more than 200 batches")
                     b = recs.next_batch()
                     crc = bool(b.validate_crc())
+                    crcs.append(crc)
                     rs = []
                     n = 0
                     for r in b:
@@ -53,7 +55,7 @@ def main():
             else:
                 res = {"exc": "unknown op"}
         except BaseException as e:  # noqa: BLE001
-            res = {"exc": type(e).__name__, "msg": str(e)[:200]}
+            res = {"exc": type(e).__name__, "msg": str(e)[:200], "crcs_before": crcs}
         sys.stdout.write(json.dumps(res) + "\n")
         sys.stdout.flush()
 
